@@ -433,9 +433,9 @@ pub fn k9(dir: &str, thorough: bool, seed: u64) {
                     let sets: Vec<String> = (0..m.len())
                         .map(|j| m.get(&format!("formula-{j}")).map(|x| xg.bits(x)).unwrap_or_else(|| s("missing")))
                         .collect();
-                    // the tool prints the preprocessed trees with the two verbose options; otherwise take the harness's own
-                    let printed: Vec<String> = clean.lines().filter_map(|l| l.strip_prefix("Modified version:     ")).map(|x| x.to_string()).collect();
-                    let trees_txt: Vec<String> = if opt == "with-progress" || opt == "exhaustive" { printed } else { trees.iter().map(|t| t.to_string()).collect() };
+                    // the preprocessed trees: the library's own preprocessing (how, or whether, the tool prints them is not part
+                    // of the property; the sets, their order and the number of variable sets are)
+                    let trees_txt: Vec<String> = trees.iter().map(|t| t.to_string()).collect();
                     format!("ok k={} trees={} {}", kmax, trees_txt.iter().map(|t| enc_name(t)).collect::<Vec<_>>().join(";"), sets.join(" "))
                 }
                 _ => format!("msg {}", err_kind(clean.lines().last().unwrap_or(""))),
